@@ -33,7 +33,8 @@ import (
 type e2eFault struct {
 	Kind string // tx: "err" (request refused before anything happened), "cut:k" (connection cut before part k is
 	// processed, no answer), "lost" (everything processed, answer lost), "206:k" (receiver error on part k: answer 206 with count k)
-	// rc/poll/partials: "err"
+	// rc/partials: "err"; poll: "err" (request fails), "failed" / "none" (the answer is overridden: every file of this
+	// poll gets the verdict failed / not found although the receiver holds it)
 }
 
 type e2eConf struct {
@@ -80,6 +81,9 @@ type e2eRig struct {
 	pollFault []e2eFault
 	partFault []e2eFault
 	nTx       int
+	// hook, when set, is called synchronously (outside the rig's lock) with every recorded event, in the
+	// goroutine that caused it: lets a component deliver a stop request or change a file at an exact point.
+	hook func(ev string)
 
 	st       *stage.Stage
 	stLogger *stslog.FileIO
@@ -120,9 +124,14 @@ func (r *e2eRig) close() {
 }
 
 func (r *e2eRig) event(format string, a ...any) {
+	ev := fmt.Sprintf(format, a...)
 	r.mu.Lock()
-	r.events = append(r.events, fmt.Sprintf(format, a...))
+	r.events = append(r.events, ev)
+	h := r.hook
 	r.mu.Unlock()
+	if h != nil {
+		h(ev)
+	}
 }
 
 func (r *e2eRig) takeEvents() []string {
@@ -300,9 +309,17 @@ func (r *e2eRig) validate(sent []sts.Pollable) ([]sts.Polled, error) {
 	for _, f := range sent {
 		names = append(names, esc(f.GetName()))
 	}
+	override := -1
 	if f := r.nextFault(&r.pollFault); f != nil {
-		r.event("poll %s -> err", strings.Join(names, ","))
-		return nil, fmt.Errorf("poll request failed: 500")
+		switch f.Kind {
+		case "failed":
+			override = sts.ConfirmFailed
+		case "none":
+			override = sts.ConfirmNone
+		default:
+			r.event("poll %s -> err", strings.Join(names, ","))
+			return nil, fmt.Errorf("poll request failed: 500")
+		}
 	}
 	st := r.stageNow()
 	if st == nil || !st.Ready() {
@@ -317,6 +334,9 @@ func (r *e2eRig) validate(sent []sts.Pollable) ([]sts.Polled, error) {
 		// consistent with what this read saw
 		r.mu.Lock()
 		code := st.GetFileStatus(f.GetName(), time.Unix(f.GetStarted().Unix(), 0))
+		if override >= 0 {
+			code = override
+		}
 		r.events = append(r.events, fmt.Sprintf("pollv %s=%d", esc(f.GetName()), code))
 		r.mu.Unlock()
 		out = append(out, &e2ePolled{Pollable: f, code: code})
